@@ -3059,8 +3059,15 @@ func (rl *clientConnReadLoop) processSettingsNoWrite(f *SettingsFrame) error {
 			cc.cond.Broadcast()
 
 			cc.initialWindowSize = s.Val
+		case http2.SettingHeaderTableSize:
+			// The size of the peer's HPACK decoder table: our encoder must not
+			// use a bigger one (RFC 7541, Section 4.2), or it refers to entries
+			// the peer has already evicted (or never kept) and the peer answers
+			// the next request with COMPRESSION_ERROR. The encoder announces the
+			// new size at the start of the next header block. processSettings
+			// holds wmu, which guards henc.
+			cc.henc.SetMaxDynamicTableSize(s.Val)
 		default:
-			// TODO(bradfitz): handle more settings? SETTINGS_HEADER_TABLE_SIZE probably.
 			cc.vlogf("Unhandled Setting: %v", s)
 		}
 		return nil
